@@ -45,6 +45,8 @@ def cases(tier):
     # patch sets produced by real fixes (all variants merged) on templated files
     ml = 40 if tier == "quick" else 48
     ts = [t for t in corpus.t_seqs(1, 2, corpus.T_LITS, max_len=ml) if corpus.has_markup(t)]
+    # + tokens spanning 2-3 template slices / templated whitespace (no separating spaces)
+    ts = sorted(set(ts) | set(corpus.span_templates(3)), key=lambda s: (len(s), s))
     for i in range(0, len(ts), 8):
         out.append({"k": "real", "ts": ts[i : i + 8]})
     return out
